@@ -271,6 +271,7 @@ class Ref:
         self.acked = set()
         self.taint = []
         self.saw_disc = set()               # receiver handles / futures' handles that observed Disconnected
+        self.hits = []                      # non-fatal deviations so far
 
     # -- helpers
     def open(self, side):
@@ -301,27 +302,31 @@ class Ref:
             raise Deviation(["bad-case"], "payload id %d reused" % v)
         self.loc[v] = where
 
+    def note(self, dev):
+        """a deviation after which the bookkeeping can go on (missing wake, payload destroyed or leaked)"""
+        self.hits.append(dev)
+
     def expect_wakes(self, need, wakes, what):
         got = list(wakes)
         for w in need:
             if w in got:
                 got.remove(w)
             else:
-                raise self.liveness("C06:missed-wake", "%s: waker %d not woken (wakes=%r)" % (what, w, wakes))
+                self.note(self.liveness("C06:missed-wake", "%s: waker %d not woken (wakes=%r)" % (what, w, wakes)))
 
     def expect_drops(self, need, drops, opname, recv_future=False):
         for d in drops:
             if d not in need:
                 where = self.loc.get(d)
                 if where in ("back", "recv", "dropped"):
-                    raise Deviation(["C09:double-drop"], "%s destroyed payload %d which is already %s" % (opname, d, where))
-                if recv_future:
-                    cl = ["C06:F31", "C01:F31"]
-                    raise Deviation(cl, "%s destroyed payload %d that a sender had already handed off (send acknowledged: %s); it is never received" % (opname, d, d in self.acked))
-                raise Deviation(["C01:lost", "C09:unexpected-drop"], "%s destroyed payload %d (location %r)" % (opname, d, where))
+                    self.note(Deviation(["C09:double-drop"], "%s destroyed payload %d which is already %s" % (opname, d, where)))
+                elif recv_future:
+                    self.note(Deviation(["C06:F31", "C01:F31"], "%s destroyed payload %d that a sender had already handed off (send acknowledged: %s); it is never received" % (opname, d, d in self.acked)))
+                else:
+                    self.note(Deviation(["C01:lost", "C09:unexpected-drop"], "%s destroyed payload %d (location %r)" % (opname, d, where)))
         for d in need:
             if d not in drops:
-                raise Deviation(["C09:leak"], "%s should have destroyed payload %d" % (opname, d))
+                self.note(Deviation(["C09:leak"], "%s should have destroyed payload %d" % (opname, d)))
         for d in drops:
             self.loc[d] = "dropped"
 
@@ -443,7 +448,7 @@ class Ref:
             if self.psq:
                 v, w = self.take_from_parked_sender()
                 if r0 == "val" and rtok[1:] != [str(v)]:
-                    raise Deviation(["C02:order"], "%s returned %s, the oldest parked send carries %d" % (" ".join(op), res, v))
+                    raise self.liveness("C02:order", "%s returned %s, the oldest parked send carries %d" % (" ".join(op), res, v))
                 if res != "val %d" % v:
                     raise self.liveness("C04:disc-with-pending-send", "%s: expected `val %d`, implementation answered `%s`" % (" ".join(op), v, res))
                 if a[0] in self.saw_disc:
@@ -613,7 +618,7 @@ class Ref:
                 if ph == "filled":
                     v = f["cell"]
                     if r0 == "rval" and rtok[1:] != [str(v)]:
-                        raise Deviation(["C02:order"], "%s returned %s, it was handed %d" % (opn, res, v))
+                        raise self.liveness("C02:order", "%s returned %s, it was handed %d" % (opn, res, v))
                     if res != "rval %d" % v:
                         raise self.liveness("C01:lost", "%s: expected `rval %d`, got `%s`" % (opn, v, res))
                     self.loc[v] = "recv"
@@ -637,7 +642,7 @@ class Ref:
                     elif self.psq:
                         v, wk = self.take_from_parked_sender()
                         if r0 == "rval" and rtok[1:] != [str(v)]:
-                            raise Deviation(["C02:order"], "%s returned %s, the oldest parked send carries %d" % (opn, res, v))
+                            raise self.liveness("C02:order", "%s returned %s, the oldest parked send carries %d" % (opn, res, v))
                         if res != "rval %d" % v:
                             raise self.liveness("C04:disc-with-pending-send", "%s: expected `rval %d`, got `%s`" % (opn, v, res))
                         if f["h"] in self.saw_disc:
@@ -694,7 +699,7 @@ class Ref:
             return
         for v, where in sorted(self.loc.items()):
             if where not in ("back", "recv", "dropped"):
-                raise Deviation(["C09:leak"], "payload %d still %r after every handle and future is gone" % (v, where))
+                self.note(Deviation(["C09:leak"], "payload %d still %r after every handle and future is gone" % (v, where)))
 
 
 def parse_out(out):
@@ -920,19 +925,27 @@ class RvEngine(Engine):
             return [("driver", out[:200])]
         items = parse_out(out)
         ref = Ref(hdr[0], hdr[1] == "a")
+        fatal = None
         try:
             for op, (res, wakes, drops) in zip(ops, items):
                 if res == "block":
                     # never generated; reached only by shrinking.  The call parks on the real code.
-                    return []
+                    break
                 ref.step(op, res, wakes, drops)
-            if len(items) == len(ops):
-                ref.finish()
+            else:
+                if len(items) == len(ops):
+                    ref.finish()
         except Deviation as d:
+            fatal = d
+        out_hits, seen = [], set()
+        for d in ref.hits + ([fatal] if fatal else []):
             if d.clauses == ["bad-case"]:
-                return []
-            return [(c, d.detail) for c in d.clauses]
-        return []
+                continue
+            for c in d.clauses:
+                if c not in seen:
+                    seen.add(c)
+                    out_hits.append((c, d.detail))
+        return out_hits
 
 
 ENGINES = [RvEngine(f) for f in ("spsc", "mpsc", "mpmc")]
